@@ -6,6 +6,7 @@ import (
 	"fmt"
 	"math"
 	"reflect"
+	"runtime"
 	"unsafe"
 
 	"github.com/philpearl/avro"
@@ -102,6 +103,39 @@ func emitPrimRead(c *driverCtx, pc primCodec, b []byte, class string) {
 		"op": "primr", "codec": pc.name, "w": int(pc.typ.Size()), "bytes": byteList(b),
 		"rv": projectValue(rv), "rout": rout, "left": left, "canary": canary, "sout": sout, "sleft": sleft,
 	})
+}
+
+// emitPrimNew decodes a run of values into slots the codec allocates itself
+// (Codec.New from the ReadBuf's bank), and looks at all slots only after the
+// last one has been filled.
+func emitPrimNew(c *driverCtx, pc primCodec, vs []reflect.Value, class string) {
+	w := avro.NewWriteBuf(nil)
+	in := make([]any, len(vs))
+	for i, v := range vs {
+		p := reflect.New(pc.typ)
+		p.Elem().Set(v)
+		pc.codec.Write(w, p.UnsafePointer())
+		in[i] = projectValue(v)
+	}
+	r := avro.NewReadBuf(append([]byte{}, w.Bytes()...))
+	ptrs := make([]unsafe.Pointer, 0, len(vs))
+	rout, _ := safeCall(func() error {
+		for range vs {
+			p := pc.codec.New(r)
+			ptrs = append(ptrs, p)
+			if err := pc.codec.Read(r, p); err != nil {
+				return err
+			}
+		}
+		return nil
+	})
+	out := make([]any, len(ptrs))
+	for i, p := range ptrs {
+		out[i] = projectValue(reflect.NewAt(pc.typ, p).Elem())
+	}
+	c.rec.NewCase()
+	c.rec.Emit("C17|"+pc.name+"|"+class, map[string]any{"op": "primnew", "codec": pc.name, "vs": in, "rvs": out, "rout": rout, "left": r.Len()})
+	runtime.KeepAlive(r)
 }
 
 // zig-zag boundary values: every v whose encoding length changes nearby
@@ -283,6 +317,18 @@ func driveC17(c *driverCtx) error {
 			"rv": projectValue(reflect.ValueOf(back)), "rout": errOutcome(err), "left": r.Len(),
 		})
 	}
+	// slots allocated by the codecs themselves: runs of boundary / random values per codec
+	for _, pc := range primCodecs {
+		pool := primPool(c, pc)
+		for i := 0; i < c.pick(40, 4000); i++ {
+			k := 2 + c.rng.Intn(7)
+			vs := make([]reflect.Value, k)
+			for j := range vs {
+				vs[j] = pool[c.rng.Intn(len(pool))]
+			}
+			emitPrimNew(c, pc, vs, "new-slots")
+		}
+	}
 	return nil
 }
 
@@ -301,4 +347,34 @@ func varintLen(v int64) int {
 		n++
 	}
 	return n
+}
+
+// primPool: boundary values of the codec's Go type
+func primPool(c *driverCtx, pc primCodec) []reflect.Value {
+	var out []reflect.Value
+	switch pc.name {
+	case "int64":
+		for _, v := range intBoundaries(64) {
+			out = append(out, reflect.ValueOf(v))
+		}
+	case "int32":
+		for _, v := range intBoundaries(32) {
+			out = append(out, reflect.ValueOf(int32(v)))
+		}
+	case "int16":
+		for _, v := range intBoundaries(16) {
+			out = append(out, reflect.ValueOf(int16(v)))
+		}
+	case "float", "f32double":
+		for _, p := range float32Patterns() {
+			out = append(out, reflect.ValueOf(math.Float32frombits(p)))
+		}
+	case "double":
+		for _, p := range float64Patterns() {
+			out = append(out, reflect.ValueOf(math.Float64frombits(p)))
+		}
+	case "bool":
+		out = append(out, reflect.ValueOf(true), reflect.ValueOf(false))
+	}
+	return out
 }
